@@ -333,14 +333,17 @@ def c08_batches(seed, tier, cfgmode="literal"):
                 "ABS_Z": axis("key", note=72, noteNeg=71, off=0, offNeg=0, bidi=True, flip=not flip, dzn=dzn, dzd=dzd),
                 "ABS_RX": axis("key", note=100, off=15, bidi=False, flip=flip, dzn=dzn, dzd=dzd),
                 "ABS_RZ": axis("key", note=5, noteNeg=122, off=0, offNeg=0, bidi=True, dzn=0, dzd=1),
+                "ABS_GAS": axis("key", note=36, off=2, bidi=False, flip=False, dzn=dzn, dzd=dzd),     # trigger: rest = 0
+                "ABS_BRAKE": axis("key", note=38, off=0, bidi=False, flip=True, dzn=0, dzd=1),       # flipped trigger
             }
             info = {"ABS_HAT0X": {"min": -1, "max": 1}, "ABS_X": {"min": -128, "max": 127}, "ABS_Z": {"min": 0, "max": 255},
-                    "ABS_RX": {"min": -32768, "max": 32767}, "ABS_RZ": {"min": -100, "max": 100}}
+                    "ABS_RX": {"min": -32768, "max": 32767}, "ABS_RZ": {"min": -100, "max": 100}, "ABS_GAS": {"min": 0, "max": 255},
+                    "ABS_BRAKE": {"min": 0, "max": 1023}}
             cfg = base_cfg(dChan=rng.randrange(16), actions=acts, maps=[{"name": "M1", "keys": {}, "axes": ax}], axinfo=info)
             walks = []
             for _ in range(n_walks):
                 w = []
-                axes = rng.sample(sorted(ax), rng.choice([1, 2, 5]))
+                axes = rng.sample(sorted(ax), rng.choice([1, 2, 7]))
                 for _ in range(length):
                     if rng.random() < 0.15:
                         k = rng.choice(sorted(acts))
@@ -363,7 +366,10 @@ def c08_batches(seed, tier, cfgmode="literal"):
                     w.append({"ev": "axis", "a": a, "raw": raw})
                 for a in axes:  # back to rest: C01 for axes
                     mn, mx = info[a]["min"], info[a]["max"]
-                    w.append({"ev": "axis", "a": a, "raw": (mn + mx) // 2 + (1 if mn == 0 else 0) if mn == 0 else 0})
+                    if not ax[a]["bidi"] and mn == 0:      # a trigger rests at its released end
+                        w.append({"ev": "axis", "a": a, "raw": mx if ax[a]["flip"] else mn})
+                    else:
+                        w.append({"ev": "axis", "a": a, "raw": (mn + mx) // 2 + (1 if mn == 0 else 0) if mn == 0 else 0})
                 if rng.random() < 0.5:
                     w.append({"ev": "disconnect"})
                 walks.append(w)
